@@ -52,14 +52,14 @@ ASSUMPTIONS = ["objects stored in an OdxLinkDatabase are never None",
                "COMPARAM-SPEC / COMPARAM-SUBSET documents, DIAG-VARIABLEs, state charts, functional classes and SDG "
                "references are not generated (their references go through the same OdxLinkDatabase.resolve)"]
 
-# --- tie of kind (1) (task W20): Gen/OdxLinkResolve.lean is regenerated from OdxLinkDatabase.resolve / resolve_lenient of the current
-# source by the Python->Lean translator and proved equal to the hand-written resolve / resolveLenient in strict mode
+# --- tie of kind (1) (task W20): Gen/OdxLinkResolve.lean is regenerated from OdxLinkDatabase.resolve / resolve_lenient / resolve_snref of
+# the current source by the Python->Lean translator and proved equal to the hand-written resolve / resolveLenient in strict mode
 # (Proofs/OdxLinkResolveGenEq.lean)
 LEAN_TARGETS = LEAN_TARGETS + ["OdxVerif.Props.C10Gen"]
 THEOREMS = THEOREMS + [P + t for t in ["gen_resolve_eq", "gen_resolveLenient_eq", "C10_gen_resolve_eq", "C10_gen_resolve", "C10_gen_resolve_errors",
-                                       "C10_gen_innermost_wins"]]
-TRUSTED = TRUSTED + ["translator harness/extract/py2lean.py + primitives lean/OdxVerif/Model/PyRt.lean for OdxLinkDatabase.resolve / resolve_lenient "
-                     "(self._db = the model's Db, dict.get = dget, isinstance = Obj.isInst, ref.ref_docs / ref.ref_id = Ref.docs / Ref.refId are the "
+                                       "C10_gen_innermost_wins", "gen_resolveSnref_eq", "C10_gen_snref_eq", "C10_gen_snref_unique"]]
+TRUSTED = TRUSTED + ["translator harness/extract/py2lean.py + primitives lean/OdxVerif/Model/PyRt.lean for OdxLinkDatabase.resolve / resolve_lenient / resolve_snref "
+                     "(items = a list of the model's Obj, x.short_name = Obj.name; self._db = the model's Db, dict.get = dget, isinstance = Obj.isInst, ref.ref_docs / ref.ref_id = Ref.docs / Ref.refId are the "
                      "abstract record interface of the rendering; strict mode; warnings.warn has no effect on the result)"]
 
 
